@@ -135,13 +135,21 @@ def rule_surface(env, shared):
                     off = unref(e.args[1])
                     if off[0] == "param" and off[1] >= 2:
                         hits.append((e, "raw pointer into the storage at the caller's index"))
-                if mdl == "UnsafeCell::get" and e.args and R.classify(e.args[0]) == ("cell", owner):
-                    # admission compares a parameter with the now-serving counter
+                if mdl == "UnsafeCell::get" and e.args and R.classify(e.args[0]) == ("cell", owner) \
+                        and (b.info or {}).get("inputs", [{}])[0].get("k") == "ref" and not (b.info or {}).get("inputs")[0].get("mut") \
+                        or (mdl == "UnsafeCell::get" and e.args and R.classify(e.args[0]) == ("cell", owner) and sa != owner):
+                    # the ticket must be a reservation made inside this very call
+                    own_ticket = False
                     for f in env.event_facts(e):
                         if f[0] == "eq" and len(f) == 3:
                             for x in (f[1], f[2]):
-                                if unref(x)[0] == "param" and unref(x)[1] >= 2:
+                                ux = unref(x)
+                                if ux[0] == "atomic" and ux[1] == "fetch_add":
+                                    own_ticket = True
+                                if ux[0] == "param" and ux[1] >= 2:
                                     hits.append((e, "wrapped iterator used under a caller-chosen ticket"))
+                    if not own_ticket and not hits:
+                        hits.append((e, "wrapped iterator used without a ticket reserved inside the call"))
         # a safe public function that hands out a reference / pointer into cell-protected storage
         rt = ev.local(env.ctx(b, sa, w), 0)
         for x in subterms(rt):
